@@ -185,7 +185,7 @@ type consCase struct {
 
 // C06: consumer-side range/pull code sees exactly what the generator yields.
 func C06(c *vf.Check) {
-	consts := map[string]string{"MaxSize": tier(c, "3", "4"), "TapeLen": "3"}
+	consts := map[string]string{"MaxSize": tier(c, "3", "4"), "TapeLen": tier(c, "3", "2")}
 	var cases []consCase
 	res := c.S.RunTLC(vf.TLCRun{Module: "MC_Cons", Cfg: "MC_Cons.cfg", Consts: consts, Timeout: tier(c, 10*time.Minute, 90*time.Minute),
 		OnCase: func(raw []byte) {
